@@ -115,6 +115,30 @@ MUTATIONS = {
         old="                if not frame or frame_details != (",
         new="                if not frame or frame_no == 1 or frame_details != (",
     ),
+    # round 7: the iterator draw() builds / render-argument values that cannot be hashed
+    "c09-animate-drops-cache-two-loops": dict(
+        file="renderable/_renderable.py", props=["C09"],
+        old="            False if loops == 1 else cache,",
+        new="            False if loops in (1, 2) else cache,",
+    ),
+    "c09-animate-cache-limit-ignored": dict(
+        file="renderable/_renderable.py", props=["C09"],
+        old="            False if loops == 1 else cache,",
+        new="            False if loops == 1 else bool(cache),",
+    ),
+    "c09-cache-key-hashed-args": dict(
+        file="render/_iterator.py", props=["C09"],
+        old="""                if not frame or frame_details != (
+                    renderable_data.size,
+                    renderable_data.duration,
+                    self._render_args,
+                ):""",
+        new="""                if not frame or (*frame_details[:2], hash(frame_details[2])) != (
+                    renderable_data.size,
+                    renderable_data.duration,
+                    hash(self._render_args),
+                ):""",
+    ),
     "c10-close-finalizes-caller-data": dict(
         file="render/_iterator.py", props=["C10"],
         old="            if self._finalize_data:\n                self._render_data.finalize()",
@@ -175,6 +199,13 @@ MUTATIONS = {
         file="renderable/_renderable.py", props=["C07", "C13"],
         old="            if not_echo_input:\n                termios.tcsetattr(output_fd, termios.TCSANOW, old_attr)",
         new="            if not_echo_input and hide_cursor:\n                termios.tcsetattr(output_fd, termios.TCSANOW, old_attr)",
+    ),
+    "c07-no-finalize-when-failing": dict(
+        # round 7: the render data is finalized by draw() only when no exception is in flight
+        # (RenderData.__del__ would still finalize it once the object is collected)
+        file="renderable/_renderable.py", props=["C07"],
+        old="                termios.tcsetattr(output_fd, termios.TCSANOW, old_attr)\n            render_data.finalize()",
+        new="                termios.tcsetattr(output_fd, termios.TCSANOW, old_attr)\n            if sys.exc_info()[0] is None:\n                render_data.finalize()",
     ),
     "c07-kitty-handler-without-st": dict(
         file="image/kitty.py", props=["C07"],
